@@ -174,9 +174,11 @@ int prop_hash(Run& run) {
         Rng rng(run.seed, (uint64_t)cs);
         IWorld* w = ws[(size_t)((cs + run.seed) % ws.size())];
         HashCase hc{run, *w, ""};
-        if (rng.chance(1, 2))
+        bool pristine = rng.chance(1, 2); // the policy starts without any installed hash
+        if (pristine)
             w->hard_reset();
         w->set_hash_budget(100000);
+        std::map<type_id, type_id> installed; // id -> index of the last successful initialisation of this case
         int mode = (int)rng.below(10); // 0-5 direct histories, 6-7 through update, 8 budget, 9 forked exhaustion
         if (mode <= 5 || mode == 8) {
             int steps = rng.range(1, thorough ? 10 : 6);
@@ -255,7 +257,34 @@ int prop_hash(Run& run) {
                     run.count(budget < 100000 ? "search-exhausted.small-budget" : "search-exhausted.default-budget");
                     if (budget < 100000 && !cur.empty())
                         run.distinct.insert(std::hash<std::string>()(ids_json(cur, 700)) ^ 0x5bd1e995);
-                    break; // the hash state is unspecified after a failed search
+                    // The search failed and said so: no hash was installed for this set.  Whatever the
+                    // checked hash still accepts can only belong to the previous successful
+                    // initialisation (same id, same index): anything else maps an id into a v-table
+                    // pointer vector that was laid out for other ids.
+                    if (w->caps().checked && pristine) {
+                        std::vector<type_id> probe = cur;
+                        probe.insert(probe.end(), stale.begin(), stale.end());
+                        probe.insert(probe.end(), prev.begin(), prev.end());
+                        for (auto id : probe) {
+                            type_id idx = 0;
+                            set_stage("hash_type_id-after-failed-search");
+                            Outcome ho = w->hash_id(id, idx);
+                            set_stage("monitor");
+                            run.evaluations++;
+                            if (ho.kind != Outcome::RAN)
+                                continue;
+                            auto it = installed.find(id);
+                            if (it == installed.end() || it->second != idx) {
+                                if (hfail(hc, "id-accepted-after-failed-search", "hash_type_id(" + hex(id) + ") after hash_initialize reported hash_search_error", cur,
+                                          it == installed.end() ? "unknown_class_error (the id does not belong to any installed hash)" : "unknown_class_error or its index " + std::to_string(it->second) + " of the last installed hash",
+                                          "index " + std::to_string(idx)))
+                                    return 1;
+                                break;
+                            }
+                        }
+                        run.count("failed-search-followed-by-probes");
+                    }
+                    break; // beyond that the hash state is unspecified after a failed search
                 }
                 if (o.kind != Outcome::RAN) {
                     if (hfail(hc, "unexpected-error", "hash_initialize", cur, "perfect hash or hash_search_error", o.str()))
@@ -264,6 +293,12 @@ int prop_hash(Run& run) {
                 }
                 if (verify_hash(hc, rng, cur, stale, false))
                     return 1;
+                installed.clear();
+                for (auto id : cur) {
+                    type_id idx = 0;
+                    if (w->hash_id(id, idx).kind == Outcome::RAN)
+                        installed[id] = idx;
+                }
                 if (cur.size() >= 2)
                     run.distinct.insert(std::hash<std::string>()(ids_json(cur, 700)));
                 if (run.samples.size() < 3 && cur.size() >= 3 && cur.size() <= 12)
